@@ -39,10 +39,17 @@
     fire; what a confirmed group is turned into is proved, but the composition "group inside a longer file" is
     covered by the tie (stages exh, rand) only; (ii) the temporary-object half of soundness is proved on the
     analysed change list for tables; its column analogue and the bridge from statements to that list are covered
-    by the tie only. *)
+    by the tie only.
+    ROUND 5 closes most of (i) and (ii): C18_rebuild_group_in_file (a confirmed group after any statements that
+    create no new_* table: the statements before stay, the group is folded at its CREATE, the rest is processed
+    by the same pre-pass; DS103 of the group and DS102 of the statements before it are in the file's report),
+    C18_sound_temp_objects (tables and columns, any analysed list), C18_sound_temp_table_file and
+    C18_sound_temp_column_file (bridge from statements).  Still missing: file-level COMPLETENESS (theorems 5-6')
+    for files on which the pre-pass fires, stated on statements rather than on the analysed list. *)
 From Coq Require Import List NArith Bool Arith.
 From Atlas Require Import Base.Bytes Lint.LintModel Lint.LintSpec Lint.LintProofs Lint.LintFileProofs Lint.LintSoundProofs Lint.LintDropProofs Lint.LintRefute
-  Lint.LintNolintModel Lint.LintNolintProofs Lint.LintNolintRefute.
+  Lint.LintNolintModel Lint.LintNolintProofs Lint.LintNolintRefute
+  Lint.LintGenModel Lint.LintGenSpec Lint.LintGenProofs Lint.LintGenRefute Lint.LintEnvModel Lint.LintEnvProofs Lint.LintHistProofs Lint.LintComposeProofs Lint.LintRefineProofs.
 Import ListNotations.
 
 (** 1. destructive.Analyze, exactly: DS102 at [p] naming [n] iff a statement at [p] carries DropTable n
@@ -467,3 +474,357 @@ Example ex_nolint_nonblank :
   /\ rules_of [b "-- atlas:nolint incompatible,DS102" ++ nl] = [b "incompatible,DS102"]
   /\ silences (rules_of [b "-- atlas:nolint incompatible,DS102" ++ nl]) DS102 = false.
 Proof. exact nonblank_is_bare. Qed.
+
+
+(** * Round 5 -- the analyzer itself, engine-free (Lint/LintGenModel.v: File.loadSpans / SchemaSpan / TableSpan /
+    ColumnSpan, destructive.New and Analyzer.Analyze on ARBITRARY multi-schema change lists: DropSchema, DropTable,
+    ModifyTable with several drops, RenameTable / RenameColumn, nil Table.Schema), vocabulary Lint/LintGenSpec.v:
+    the HISTORY of a name = its Add (true) / Drop (false) events in file order; [temp_history] = created in the file
+    and dropped after its last creation; [dropped_history] = only dropped.
+
+    FULL STATEMENTS at this level (both FALSE, see the [_refuted] theorems; same root cause as rounds 1-2, one span
+    state per name per file, plus: loadSpans has no case for Rename changes):
+      C18_complete_generic (full): every Drop change that removes an incarnation that existed before the file is reported.
+      C18_sound_generic (full): no Drop change that removes an incarnation the file itself created is reported.
+    PROVED, for all change lists: the span of every name is the end state of its history (any history), the exact
+    report, completeness with the exact exception [temp_history], soundness w.r.t. histories, the exit rule. *)
+
+(** 31. Every span loadSpans computes is the end state of the add/drop history of that name -- over ALL change lists. *)
+Theorem C18_generic_spans_are_histories :
+  forall (cl : list gschange) (s t c : name),
+  SchemaSpan_g (loadSpans_g cl) s = state_of (schema_hist cl s) /\
+  TableSpan_g (loadSpans_g cl) s t = state_of (table_hist cl s t) /\
+  ColumnSpan_g (loadSpans_g cl) s t c = state_of (column_hist cl s t c).
+Proof. exact spans_are_histories. Qed.
+Print Assumptions C18_generic_spans_are_histories.
+
+(** 32. ... and what the end state says about the history -- over ALL histories. *)
+Theorem C18_generic_history_state :
+  forall h : list bool,
+  match state_of h with
+  | SpanUnknown => h = []
+  | SpanDropped => dropped_history h
+  | SpanAdded => exists h1, h = h1 ++ [true]
+  | SpanTemporary => temp_history h
+  end.
+Proof. exact state_of_spec. Qed.
+Print Assumptions C18_generic_history_state.
+
+(** 33. The report of Analyze, exactly, on any change list it does not panic on. *)
+Theorem C18_generic_exact :
+  forall (error : bool) (cl : list gschange) ds rep err,
+  Analyze_g error cl = GDone ds rep err ->
+  forall d, In d ds <-> exists sc c, In sc cl /\ In c (gsc_changes sc) /\ diag_of cl (gsc_pos sc) c d.
+Proof. exact Analyze_g_exact. Qed.
+Print Assumptions C18_generic_exact.
+
+(** 34. Completeness over all change lists and span histories: a DropSchema / DropTable / DropColumn change whose
+    name does NOT have a temp_history (in particular: a name the file never creates) is reported at the position of
+    its statement -- DS101 with the table count; DS102, or else a DS101 for the table's schema is in the report (the
+    schema is only dropped in this file); DS103 naming the column unless it is VIRTUAL -- and the analyzer reports
+    once and fails iff option `error`.  Exception = temp_history, which is exactly finding `readded` when the first
+    event of the name is a Drop. *)
+Theorem C18_complete_generic :
+  forall (error : bool) (cl : list gschange) ds rep err,
+  Analyze_g error cl = GDone ds rep err ->
+  (forall sc S0, In sc cl -> In (GDropSchema S0) (gsc_changes sc) ->
+     ~ temp_history (schema_hist cl (gs_name S0)) ->
+     In (mkGD GDS101 (gsc_pos sc) [gs_name S0] (gs_ntables S0)) ds) /\
+  (forall sc T s, In sc cl -> In (GDropTable T) (gsc_changes sc) -> gt_schema T = Some s ->
+     ~ temp_history (table_hist cl s (gt_name T)) ->
+     In (mkGD GDS102 (gsc_pos sc) [gt_name T] 0%N) ds \/
+     exists sc' S0, In sc' cl /\ In (GDropSchema S0) (gsc_changes sc') /\ gs_name S0 = s /\
+                   In (mkGD GDS101 (gsc_pos sc') [s] (gs_ntables S0)) ds) /\
+  (forall sc T s cs d, In sc cl -> In (GModifyTable T cs) (gsc_changes sc) -> gt_schema T = Some s ->
+     In (GDropColumn d) cs -> is_virtual d = false ->
+     ~ temp_history (column_hist cl s (gt_name T) (gc_name d)) ->
+     exists ns, In (mkGD GDS103 (gsc_pos sc) ns 0%N) ds /\ In (gc_name d) ns) /\
+  (ds <> [] -> rep = true /\ err = error).
+Proof. exact complete_generic. Qed.
+Print Assumptions C18_complete_generic.
+
+(** 35. Soundness over all change lists: every diagnostic sits on a statement that carries a Drop change of exactly
+    the named object (DS101: that schema, with its table count; DS102: that table; DS103: non-empty, every named
+    column is dropped there and is not VIRTUAL), and the named object does not have a temp_history: an object
+    created in the file and dropped after its last creation is never named. *)
+Theorem C18_sound_generic :
+  forall (error : bool) (cl : list gschange) ds rep err,
+  Analyze_g error cl = GDone ds rep err ->
+  forall d, In d ds -> exists sc, In sc cl /\ gd_pos d = gsc_pos sc /\ sound_diag cl sc d.
+Proof. exact sound_generic. Qed.
+Print Assumptions C18_sound_generic.
+
+(** 36. ... and a change list without any Drop change gets no diagnostic, no report, no error -- whatever schemas,
+    renames, index / foreign-key changes or nil Table.Schema pointers it holds. *)
+Theorem C18_sound_generic_additive :
+  forall (error : bool) (cl : list gschange),
+  forallb (fun c => negb (is_drop c)) (all_gchanges cl) = true ->
+  Analyze_g error cl = GDone [] false false.
+Proof. exact sound_generic_additive. Qed.
+Print Assumptions C18_sound_generic_additive.
+
+(** 37. One report iff a diagnostic; the error iff a diagnostic and option `error`. *)
+Theorem C18_generic_exit :
+  forall (error : bool) (cl : list gschange) ds rep err,
+  Analyze_g error cl = GDone ds rep err ->
+  (rep = true <-> ds <> []) /\ (err = true <-> ds <> [] /\ error = true).
+Proof. exact Analyze_g_exit. Qed.
+Print Assumptions C18_generic_exit.
+
+(** 38. Analyze panics (nil dereference in schemaSpan) iff some change asks for a span and some AddTable /
+    DropTable / ModifyTable carries a table without Schema. *)
+Theorem C18_generic_panic_iff :
+  forall (error : bool) (cl : list gschange),
+  Analyze_g error cl = GPanic <->
+  (exists c, In c (all_gchanges cl) /\ queries c = true) /\
+  (exists c, In c (all_gchanges cl) /\ nil_schema c = true).
+Proof. exact Analyze_g_panic. Qed.
+Print Assumptions C18_generic_panic_iff.
+
+(** 39. destructive.New: `error` is true unless a `destructive` block says otherwise. *)
+Theorem C18_generic_error_default :
+  forall children : list gblock,
+  (forall b, In b children -> fst b <> s_destructive) -> New_error children = true.
+Proof. exact New_error_default. Qed.
+Print Assumptions C18_generic_error_default.
+
+(** 39'. ... and only the FIRST `destructive` block and its FIRST `error` attribute count (Resource.Resource / Resource.Attr). *)
+Theorem C18_generic_error_first :
+  forall (ty : name) (attrs : list (name * bool)) (rest : list gblock),
+  ty = s_destructive ->
+  New_error ((ty, attrs) :: rest) =
+  match find (fun a => name_eqb (fst a) s_error) attrs with None => true | Some a => snd a end.
+Proof. exact New_error_first. Qed.
+Print Assumptions C18_generic_error_first.
+
+(** 40. The full completeness statement is false at schema level too: DROP SCHEMA s1; CREATE SCHEMA s1; DROP SCHEMA s1
+    (history Drop, Add, Drop of a schema that existed before the file) -> no DS101, no error. *)
+Theorem C18_generic_refuted_readded_schema :
+  exists cl s, schema_hist cl s = [false; true; false] /\ Analyze_g true cl = GDone [] false false.
+Proof. exists w_readd_schema, g_s1. exact readded_schema_silent. Qed.
+Print Assumptions C18_generic_refuted_readded_schema.
+
+(** 41. The full soundness statement is false on change lists with renames: a table / column the file created,
+    renamed and dropped under its new name is reported (loadSpans has no case for RenameTable / RenameColumn). *)
+Theorem C18_generic_refuted_renamed :
+  exists cl1 cl2 p,
+    cl1 = [mkGSC 0 [GAddTable g_T]; mkGSC 8 [GRenameTable g_T g_U]; mkGSC p [GDropTable g_U]] /\
+    Analyze_g true cl1 = GDone [mkGD GDS102 p [g_u] 0] true true /\
+    Analyze_g true cl2 = GDone [mkGD GDS103 p [[98]%N] 0] true true /\
+    forallb (fun c => match c with GDropTable _ | GDropSchema _ | GAddTable _ => false | _ => true end) (all_gchanges cl2) = true.
+Proof.
+  exists w_renamed, w_renamed_col, 18%N. split; [reflexivity|].
+  split; [exact (proj1 renamed_flagged)|]. split; [exact (proj2 renamed_flagged)|]. reflexivity.
+Qed.
+Print Assumptions C18_generic_refuted_renamed.
+
+(** * Round 5 -- the analysed window: project file against explicit flags (Lint/LintEnvModel.v) *)
+
+(** 42. An explicit --latest wins: the project file's `lint { latest = ... }` has no influence on the run, and the
+    run is `lint dir n` for the flag's n (maySetFlag's Changed guard). *)
+Theorem C18_window_flag_wins :
+  forall (dir : list mfile) (fl : lint_flags) (cfg cfg' : env_cfg) (n : N),
+  fl_latest fl = Some n ->
+  ec_git_base cfg = ec_git_base cfg' -> ec_children cfg = ec_children cfg' ->
+  lint_env dir fl cfg = lint_env dir fl cfg' /\
+  (n <> 0%N -> eff_git_base fl cfg = [] ->
+   lint_env dir fl cfg = EnvLint (apply_error (New_error (ec_children cfg)) (lint dir (N.to_nat n)))).
+Proof. exact window_flag_wins. Qed.
+Print Assumptions C18_window_flag_wins.
+
+(** 43. Without flags the project file's window is used. *)
+Theorem C18_window_config_used :
+  forall (dir : list mfile) (fl : lint_flags) (cfg : env_cfg),
+  fl_latest fl = None -> fl_git_base fl = None -> ec_git_base cfg = [] -> ec_latest cfg <> 0%N ->
+  lint_env dir fl cfg = EnvLint (apply_error (New_error (ec_children cfg)) (lint dir (N.to_nat (ec_latest cfg)))).
+Proof. exact window_config_used. Qed.
+Print Assumptions C18_window_config_used.
+
+(** 44. `--latest n`: every file among the last n of the directory is analysed (has a report entry), in order,
+    and none before (LatestChanges + DevLoader.LoadChanges base/files split + Runner.Run). *)
+Theorem C18_window_files :
+  forall (dir : list mfile) (n : nat) files failed,
+  lint dir n = LintReport files failed ->
+  map fst files = map f_id (skipn (List.length dir - n) dir).
+Proof. exact lint_window. Qed.
+Print Assumptions C18_window_files.
+
+(** 44'. ... for ANY base/files split a ChangeDetector hands to DevLoader.LoadChanges (LatestChanges, the git
+    detector, ...): when the replay succeeds, exactly the files of the `files` part get an entry, in order; no file of
+    the base is analysed (checkpoint files included: skipped in the main loop, replayed on the clean database). *)
+Theorem C18_window_files_any_split :
+  forall (base files : list mfile) l,
+  LoadChanges base files = Loaded l -> map fst l = map f_id files.
+Proof. exact LoadChanges_ids. Qed.
+Print Assumptions C18_window_files_any_split.
+
+(** * Round 5 -- temporary objects of the SQLite-derived change lists (Lint/LintHistProofs.v) *)
+
+(** 45. The span states of rounds 1-2 ([table_state], [column_state]) are end states of add/drop histories too. *)
+Theorem C18_states_are_histories :
+  forall cl : list schange,
+  (forall n, table_state cl n = state_of (tab_hist cl n)) /\
+  (forall t c, column_state cl t c = state_of (col_hist cl t c)).
+Proof. exact states_are_histories. Qed.
+Print Assumptions C18_states_are_histories.
+
+(** 46. Temporary objects, tables AND columns, on ANY analysed list (so also after the pre-pass): a name whose history
+    is "created in this list and dropped after its last creation" is named by no DS102 / left out of every DS103 of its
+    table.  (The column half was tie-only until round 5; "created once" is no longer needed.) *)
+Theorem C18_sound_temp_objects :
+  forall cl : list schange,
+  (forall n, temp_history (tab_hist cl n) -> forall p, ~ In (mkDiag DS102 p [n]) (Analyze cl)) /\
+  (forall t c, temp_history (col_hist cl t c) ->
+     forall T cs, t_name T = t -> ~ In c (dropped_names (loadSpans cl) T cs)).
+Proof. exact sound_temp_objects. Qed.
+Print Assumptions C18_sound_temp_objects.
+
+(** 47. The bridge from statements, tables: a table name that exists neither before the file nor after it -- created
+    and dropped inside the file, any number of times, by whatever statements -- is never named by a DS102
+    (files on which the rebuild pre-pass does not fire).  Columns: still tie only (a DROP TABLE ends the columns of
+    the table without column events, the invariant needs the table level too). *)
+Theorem C18_sound_temp_table_file :
+  forall (r0 : realm) (stmts : list pstmt) (rs : list realm) (n : name),
+  run r0 stmts rs ->
+  rewriteTemp (changes_of r0 stmts rs) = changes_of r0 stmts rs ->
+  ~ has_table r0 n -> ~ has_table (last rs r0) n ->
+  forall p, ~ In (mkDiag DS102 p [n]) (analyze_file (changes_of r0 stmts rs)).
+Proof. exact sound_temp_table_file. Qed.
+Print Assumptions C18_sound_temp_table_file.
+
+(** 48. ... and the bridge for columns: a column that table t has neither before the file nor after it, t being
+    there after every statement, is left out of every DS103 of the file's ModifyTable changes of t -- however often
+    it is added and dropped in between (pre-pass not firing).  Without "t stays" the statement is false
+    (ADD c; DROP c; ADD c; DROP TABLE t reports the DROP c: finding `recreated`). *)
+Theorem C18_sound_temp_column_file :
+  forall (r0 : realm) (stmts : list pstmt) (rs : list realm) (t c : name),
+  wf_realm r0 -> run r0 stmts rs ->
+  rewriteTemp (changes_of r0 stmts rs) = changes_of r0 stmts rs ->
+  has_table r0 t -> Forall (fun x => has_table x t) rs ->
+  ~ has_col r0 t c -> ~ has_col (last rs r0) t c ->
+  forall sc T cs, In sc (rewriteTemp (changes_of r0 stmts rs)) -> In (ModifyTableC T cs) (sc_changes sc) -> t_name T = t ->
+  ~ In c (dropped_names (loadSpans (rewriteTemp (changes_of r0 stmts rs))) T cs).
+Proof. exact sound_temp_column_file. Qed.
+Print Assumptions C18_sound_temp_column_file.
+
+(** * Round 5 -- composition: a rebuild group inside a longer file (Lint/LintComposeProofs.v) *)
+
+(** 50. A confirmed rebuild group (CREATE new_t / copy without schema change / DROP t / RENAME new_t TO t) that follows
+    any statements none of which creates a new_* table: the statements before it stay in the analysed list as they are,
+    the group is folded into one ModifyTable at the position of its CREATE, the statements after it are processed by
+    the same pre-pass; every omitted non-virtual column gets its DS103 there, and every DropTable of the statements
+    before the group keeps its DS102 (span states taken over the whole analysed list).  Applied repeatedly (the
+    [rewriteTemp rest] of one application is the [cl] of the next when [rest] starts with statements without new_*
+    creations) this covers any number of groups in one file. *)
+Theorem C18_rebuild_group_in_file :
+  forall pre c0 c1 c2 c3 rest prevT currT,
+  (forall T, In (AddTableC T) (all_changes pre) -> has_prefix (t_name T) new_prefix = false) ->
+  sc_changes c1 = [] ->
+  modifyUsingTemp c0 c2 c3 = Some (prevT, currT) ->
+  let cl := pre ++ c0 :: c1 :: c2 :: c3 :: rest in
+  rewriteTemp cl = pre ++ mkSC (sc_pos c0) [ModifyTableC currT (tableDiff prevT currT)] :: rewriteTemp rest /\
+  (forall d, In d (t_cols prevT) -> find_col (t_cols currT) (c_name d) = None -> c_virtual d = false ->
+             column_state (rewriteTemp cl) (t_name currT) (c_name d) <> SpanTemporary ->
+             exists ns, In (mkDiag DS103 (sc_pos c0) ns) (analyze_file cl) /\ In (c_name d) ns) /\
+  (forall p T, (exists sc, In sc pre /\ sc_pos sc = p /\ In (DropTableC T) (sc_changes sc)) ->
+             table_state (rewriteTemp cl) (t_name T) <> SpanTemporary ->
+             In (mkDiag DS102 p [t_name T]) (analyze_file cl)).
+Proof. exact rebuild_group_in_file. Qed.
+Print Assumptions C18_rebuild_group_in_file.
+
+(** * Round 5 -- the two analyzer models are one (Lint/LintRefineProofs.v) *)
+
+(** 51. destructive.Analyze of the SQLite-derived model (rounds 1-4: one schema, DS102/DS103, spans keyed by table name)
+    is the engine-free analyzer on the single schema "main": embedding the change list ([esc]: tables get schema main,
+    a virtual column gets GeneratedExpr VIRTUAL, index changes become "other") commutes with the analysis, for every
+    change list and option.  So the in-process tie of stage gen and the theorems 31-41 also speak about the
+    analyzer the CLI stages exercise. *)
+Theorem C18_generic_refines_sqlite_model :
+  forall (error : bool) (cl : list schange),
+  Analyze_g error (map esc cl) =
+  GDone (map ediag (Analyze cl)) (nonempty (Analyze cl)) (nonempty (Analyze cl) && error).
+Proof. exact Analyze_refines. Qed.
+Print Assumptions C18_generic_refines_sqlite_model.
+
+(* non-vacuity, round 5 *)
+Example ex_generic_multi :
+  Analyze_g false w_multi =
+  GDone [mkGD GDS102 0 [g_t] 0; mkGD GDS102 0 [g_t] 0; mkGD GDS103 8 [[97]%N; [98]%N] 0; mkGD GDS101 18 [[115; 51]%N] 2]
+        true false.
+Proof. exact multi_result. Qed.
+Example ex_generic_drop_schema : Analyze_g true w_drop_schema = GDone [mkGD GDS101 18 [g_s1] 0] true true.
+Proof. exact drop_schema_result. Qed.
+Example ex_generic_temp : Analyze_g true w_temp = GDone [] false false.
+Proof. exact temp_result. Qed.
+Example ex_generic_nil :
+  Analyze_g true w_nil = GDone [] false false /\ Analyze_g true (w_nil ++ [mkGSC 8 [GDropSchema g_S]]) = GPanic.
+Proof. exact nil_results. Qed.
+Example ex_generic_histories :
+  schema_hist w_temp g_s1 = [true; false] /\ table_hist w_temp g_s1 g_t = [true; false]
+  /\ column_hist w_temp g_s1 g_t [97]%N = [true; false] /\ state_of [true; false] = SpanTemporary
+  /\ state_of [false; true] = SpanAdded /\ state_of [false; false] = SpanDropped /\ state_of [false; true; false] = SpanTemporary.
+Proof. vm_compute. repeat split; reflexivity. Qed.
+Example ex_generic_error_option :
+  New_error [] = true /\ New_error [(s_destructive, [])] = true
+  /\ New_error [(s_destructive, [(s_error, false); (s_error, true)])] = false
+  /\ New_error [([100]%N, [(s_error, false)]); (s_destructive, [(s_error, true)]); (s_destructive, [(s_error, false)])] = true.
+Proof. vm_compute. repeat split; reflexivity. Qed.
+Example ex_window :
+  let fl := mkFlags (Some 2%N) None in
+  eff_latest fl (mkEnvCfg 1 [] []) = 2%N /\ eff_latest (mkFlags None None) (mkEnvCfg 1 [] []) = 1%N
+  /\ lint_env [] (mkFlags None None) (mkEnvCfg 0 [] []) = EnvRequired
+  /\ lint_env [] (mkFlags (Some 0%N) None) (mkEnvCfg 1 [] []) = EnvRequired
+  /\ lint_env [] fl (mkEnvCfg 0 [109]%N []) = EnvExclusive
+  /\ lint_env [] fl (mkEnvCfg 1 [] []) = EnvLint (LintReport [] false).
+Proof. vm_compute. repeat split; reflexivity. Qed.
+
+Example ex_temp_objects :
+  let T := mkTab n_tmp [c_id; c_a] [] in
+  let cl := [mkSC 0 [AddTableC T]; mkSC 20 [ModifyTableC T [DropColumnC c_a]]; mkSC 50 [DropTableC T]] in
+  tab_hist cl n_tmp = [true; false] /\ col_hist cl n_tmp (c_name c_a) = [true; false]
+  /\ temp_history (tab_hist cl n_tmp) /\ Analyze cl = []
+  /\ Analyze [mkSC 20 [ModifyTableC T [DropColumnC c_a]]; mkSC 50 [DropTableC T]]
+     = [mkDiag DS103 20 [c_name c_a]; mkDiag DS102 50 [n_tmp]].
+Proof.
+  vm_compute. repeat split; try reflexivity.
+  exists [], [false]. repeat split; [discriminate].
+Qed.
+Example ex_temp_table_file :
+  let stmts := [(0, CreateTable n_tmp [c_id]); (25, DropTable n_tmp); (40, CreateTable n_tmp [c_id; c_a]); (70, DropTable n_tmp)]%N in
+  run w_r0 stmts (states_of w_r0 stmts) /\ ~ has_table w_r0 n_tmp /\ ~ has_table (last (states_of w_r0 stmts) w_r0) n_tmp
+  /\ analyze_file (changes_of w_r0 stmts (states_of w_r0 stmts)) = [].
+Proof.
+  vm_compute. repeat split; try reflexivity; intros H; apply H; reflexivity.
+Qed.
+
+Example ex_temp_column_file :
+  let x := mkCol [120]%N false 3 in
+  let stmts := [(0, AddColumn n_t x); (30, DropColumn n_t [120]%N); (60, AddColumn n_t x); (90, DropColumn n_t [120]%N)]%N in
+  run w_r0 stmts (states_of w_r0 stmts) /\ Forall (fun r => has_table r n_t) (states_of w_r0 stmts)
+  /\ ~ has_col w_r0 n_t [120]%N /\ ~ has_col (last (states_of w_r0 stmts) w_r0) n_t [120]%N
+  /\ analyze_file (changes_of w_r0 stmts (states_of w_r0 stmts)) = [].
+Proof.
+  vm_compute. repeat split; try reflexivity.
+  - repeat constructor; discriminate.
+  - intros [T [H1 H2]]. inversion H1; subst. apply H2. reflexivity.
+  - intros [T [H1 H2]]. inversion H1; subst. apply H2. reflexivity.
+Qed.
+
+Example ex_rebuild_group_in_file :
+  let V := mkTab n_victim [c_id] [] in
+  let New := mkTab n_new_t [c_id; c_a] [] in
+  let Old := mkTab n_t [c_id; c_a; c_b] [] in
+  let Cur := mkTab n_t [c_id; c_a] [] in
+  let cl := [mkSC 0 [DropTableC V]; mkSC 20 [AddTableC New]; mkSC 60 []; mkSC 100 [DropTableC Old];
+             mkSC 115 [RenameTableC New Cur]; mkSC 150 [ModifyTableC Cur [DropColumnC c_a]]] in
+  modifyUsingTemp (mkSC 20 [AddTableC New]) (mkSC 100 [DropTableC Old]) (mkSC 115 [RenameTableC New Cur]) = Some (Old, Cur)
+  /\ analyze_file cl = [mkDiag DS102 0 [n_victim]; mkDiag DS103 20 [c_name c_b]; mkDiag DS103 150 [c_name c_a]].
+Proof. vm_compute. split; reflexivity. Qed.
+
+Example ex_refines :
+  let T := mkTab n_t [c_id; c_a; mkCol [103]%N true 5] [] in
+  let cl := [mkSC 0 [ModifyTableC T [DropColumnC c_a; DropColumnC (mkCol [103]%N true 5); DropIndexC (mkIdx [105]%N [])]];
+             mkSC 40 [DropTableC T]] in
+  Analyze cl = [mkDiag DS103 0 [c_name c_a]; mkDiag DS102 40 [n_t]]
+  /\ Analyze_g true (map esc cl) = GDone [mkGD GDS103 0 [c_name c_a] 0; mkGD GDS102 40 [n_t] 0] true true.
+Proof. vm_compute. split; reflexivity. Qed.
